@@ -12,6 +12,8 @@ require (
 require (
 	github.com/goose-lang/primitive v0.1.0 // indirect
 	github.com/pkg/errors v0.9.1 // indirect
+	golang.org/x/mod v0.19.0 // indirect
+	golang.org/x/sync v0.7.0 // indirect
 )
 
 replace github.com/goose-lang/goose => /repo
